@@ -24,7 +24,6 @@ SOFTWARE.
 Representation of the Einsum equation
 """
 from collections import Counter
-from itertools import chain
 
 from lark.lexer import Token
 from lark.tree import Tree
@@ -217,9 +216,9 @@ class Equation:
 
         Note: returns the output ranks first
         """
-        term_iter = chain(
-            self.equation.find_data("times"),
-            self.equation.find_data("take"))
+        # Visit the terms in the order they are written
+        term_iter = (tree for tree in self.equation.iter_subtrees_topdown()
+                     if tree.data == "times" or tree.data == "take")
 
         # Get the ranks in a term of inputs
         term_ranks = Equation.__get_term_ranks(next(term_iter))
